@@ -147,7 +147,8 @@ ApplySuspect(x, s) ==
   ELSE LET k0  == x.cfg.mult - 2
            k   == IF x.nn - 2 < k0 THEN 0 ELSE k0
            min == SuspMin(x.cfg, x.nn)
-           max == x.cfg.maxMult * min
+           \* (the code multiplies the unrounded minimum: one division at the end)
+           max == (x.cfg.maxMult * x.cfg.mult * NodeScale1000(x.nn) * x.cfg.interval) \div 1000
        IN Out([r0 EXCEPT !.inc = s.inc, !.state = "suspect", !.changed = x.now],
               [on |-> TRUE, k |-> k, min |-> min, max |-> max,
                start |-> x.now, conf |-> {s.from}, n |-> 0],
